@@ -581,7 +581,9 @@ PerformWrite(d, o, KS(_, _)) ==
           /\ written' = [written EXCEPT ![o] = Norm(@ \o bytes)]
           /\ SetPend(d, o, IF r2.total = r2.len THEN "COMPLETE" ELSE "DELIVER")
      /\ UNCHANGED <<kin, consumed>>
-  \/ /\ ~kout.hup /\ space = 0                   \* EAGAIN
+  \/ /\ ~kout.hup /\ (space = 0 \/ (TraceMode /\ KS(o, Min(room, space)) = {}))     \* EAGAIN
+     \* (TraceMode: the log does not show how full the kernel buffer is; EAGAIN is taken when
+     \* the operation's next recorded delivery needs no further byte)
      /\ op' = [op EXCEPT ![o] = r] /\ SetPend(d, o, "RESUME")
      /\ UNCHANGED <<kin, kout, consumed, written>>
   \/ /\ kout.hup                                 \* EPIPE / ECONNRESET
